@@ -30,6 +30,10 @@ CHECKS['C03'] = ('E2', 'model_checking',
     'Stateless CHESS-style exploration of real threads: the loop thread runs the real Manager.run(), firing threads call fire(); every interleaving at source-line granularity of the dispatch / generate_events hand-shake / idle-wait / wake-up functions plus every lock, event and select/poll/epoll operation is executed with <=k pre-emptions (quick: fallback k<=2, each poller k<=1, two firing threads k<=1; thorough: one more everywhere) for the fallback idle wait and for Select, Poll and EPoll. Timed waits never expire, so a loop that needs a timeout to notice an event ends in the terminal state loop-blocked + undispatched event = LOST WAKE-UP; every execution is also judged for exactly-once, per-thread-ordered dispatch.',
     'Trusted: CPython line atomicity for the monitored functions (sub-line races not explored), the lock/event/select doubles, sys.monitoring LINE delivery; the randomised tail of the quantifier is not done (sampling is another family).',
     'pre-emption-bounded exhaustive schedule exploration of the real threads under a controlled scheduler (stateless model checking)', 'DESIGN.md 3/E2, 6/C03')
+CHECKS['C08'] = ('E4+E2', 'model_checking',
+    'Part 1: every program (chain started->c1..cL, L<=3; stop action in any handler; 9 stop actions: stop() with/without codes, SystemExit with/without codes, KeyboardInterrupt; next link fired before/after the action; one link optionally fired from a generator step; extra events around the action) runs under the real run() twice on the same manager, with stop() on the stopped manager (also with an event queued) in between; per cycle exactly one started/stopped, everything fired is dispatched and no queue residue when run() ends, the code reaches the caller of run(). Part 2 (E2): stop()/stop(3) issued by a second thread, every interleaving with <=k pre-emptions (quick k<=1, one config k<=2; thorough k<=2/3): run() ends, stopped dispatched exactly once, nothing fired is left, code propagates.',
+    'Trusted: as for C03 (line atomicity, doubles); exit code 0 may surface as a normal return; the idle loop is kept awake by a zero-time generate_events handler.',
+    'bounded-exhaustive program enumeration under the real run() + pre-emption-bounded schedule exploration for the threaded stop', 'DESIGN.md 6/C08')
 NOT_YET = {}
 def main():
     props = [json.loads(l) for l in open(os.path.join(HERE, 'properties.jsonl'))]
